@@ -64,12 +64,12 @@ def run(case):
 
         def my_getmtime(p):
             if fault and fault['call'] == 'getmtime' and str(p).startswith(top):
-                raise OSError(errno.EIO, 'injected')
+                raise OSError(getattr(errno, fault.get('errno', 'EIO')), 'injected')
             return real_getmtime(p)
 
         def my_getsize(p):
             if fault and fault['call'] == 'getsize' and str(p).startswith(top):
-                raise OSError(errno.EIO, 'injected')
+                raise OSError(getattr(errno, fault.get('errno', 'EIO')), 'injected')
             return real_getsize(p)
 
         builtins.open = my_open
